@@ -124,9 +124,10 @@ class Renderer:
     BOOLS = ["a.b", "a.c", "b0.b", "b0.c", "c0.b", "c0.c"]
     INTS = ["a.i", "a.j", "b0.i", "b0.j", "c0.i", "c0.j"]
 
-    def __init__(self, context, wrapper="ret"):
+    def __init__(self, context, wrapper="ret", label_style="const"):
         self.context = context
         self.wrapper = wrapper
+        self.label_style = label_style      # case labels: 'const' | 'ternary' | 'and' | 'or' (labels spanning several blocks)
         self.k = 0
         self.nb = 0
         self.ni = 0
@@ -240,8 +241,17 @@ class Renderer:
                 bt, ba = self.stmts(body, ind + 1)
                 if lab == "c":
                     n += 1
-                    lines.append(f"{pad}case {n}:")
-                    clauses.append((("k", n), ba))
+                    if self.label_style == "const":
+                        lines.append(f"{pad}case {n}:")
+                        clauses.append((("k", n), ba))
+                    else:
+                        if self.label_style == "ternary":
+                            p_ = self.bool_read()
+                            ct, ca = p_, ("rd", p_)
+                        else:
+                            ct, ca = self.cond("a" if self.label_style == "and" else "o")
+                        lines.append(f"{pad}case (({ct}) ? {n} : {n + 10}):")
+                        clauses.append((("tern", ca, ("k", n), ("k", n + 10)), ba))
                 else:
                     lines.append(f"{pad}default:")
                     clauses.append((None, ba))
